@@ -199,7 +199,7 @@ class C16(FloatSpec):
             yield c
         # far beyond the usual sizes: 2^16 .. 2^17 samples (quick), 2^20 (thorough), even and odd
         for n in ([2 ** 16 + rng.choice([0, 1]), rng.randint(2 ** 16, 2 ** 17)] if quick else
-                  [2 ** 20, 2 ** 20 - 1, 2 ** 16 + 1, rng.randint(2 ** 16, 2 ** 20)]):
+                  [2 ** 20 - rng.choice([0, 1]), 2 ** 16 + 1, rng.randint(2 ** 16, 2 ** 18)]):   # (a 2^20 case costs ~40 s)
             w = rng.choice(WINDOWS)
             W = LOBE[w]
             c = self.tone_case(rng, n, rng.randint(W + 1, math.ceil(n / 2 - W) - 1), w)
